@@ -3,18 +3,20 @@ import itertools
 import json
 import os
 
-from vlib import core, bits_gen, bits_ctx as bc, coqlit as cl
+from vlib import core, bits_gen, prime_gen, bits_ctx as bc, coqlit as cl
 from vlib.core import Broken, Mismatch, Failing
 
 ID = 'C18'
 LEVEL = 'proof'
 THEORIES = ['theories/L0Bits/BitsFacts.vo', 'theories/L3Context/PrimeFacts.vo',
-            'theories/L3Context/NamingFacts.vo']
+            'theories/L3Context/NamingFacts.vo',
+            'theories/L3Context/PyPrims.vo']
 
 HEADER = '''From Coq Require Import ZArith List Bool String.
 Import ListNotations.
 From Omega Require Import L0Bits.Bits L3Context.Ctx L3Context.Prime L3Context.Naming.
 From OmegaGen Require Import BitsGen.
+From OmegaGen Require PrimeGen.
 Open Scope string_scope.
 Open Scope Z_scope.
 '''
@@ -25,12 +27,30 @@ ERRORS = (AssertionError, KeyError, ValueError, TypeError, IndexError)
 def prove(ctx):
     with ctx.coq_lock():
         bits_gen.ensure_bits(ctx)
+        # prime.py and the identifier helpers of syntax.py, translated from
+        # the current sources; the bridge proves them equal to the model
+        prime_gen.ensure_prime(ctx)
         ctx.prove('GenProofs/BitsProofs.v')
+        ctx.prove('GenProofs/PrimeBridge.v')
         ctx.prove('Properties/C18.v')
     ctx.trusted.append(
         'translator tie T: bitvector.dom_to_width, '
         '_type_hints._bitfield_limits -> gen/BitsGen.v (declared_hint is '
         'hand-written glue for the table update in bitblast_table)')
+    ctx.trusted.append(
+        'translator tie T: omega/symbolic/prime.py (17 functions) and '
+        'syntax.isprimed/prime/unprime/prime_vars/unprime_vars -> '
+        'gen/PrimeGen.v by tools/py2coq_prime.py (fail-closed); '
+        'GenProofs/PrimeBridge.v proves generated = hand-written model on '
+        'every run. Trusted there: the representation of '
+        'theories/L3Context/PyPrims.v (sets/dicts as duplicate-free lists, '
+        'exceptions as None, `u.support` read at identifier level, '
+        '`s[-1] == c` false on the empty string, aut.vars_of_players an '
+        'uninterpreted parameter) and the primitives fol.support / fol.let '
+        '/ fol.vars = ctx_support / ctx_let_vars / declared of the L3 model '
+        '(tied by the C07/C18 correspondence). Not translated: '
+        'print_support (output), pairwise_disjoint, pick (generic container '
+        'helpers)')
     ctx.trusted.append(
         'L3 model identifies a bit with (variable, index); the printing of '
         'these pairs as dd variable names ("x_0", "x_0\'"; modelled in '
@@ -456,6 +476,12 @@ def run_prime_ops(rng, inst):
         for vrs in [None] + subsets(flex + rigid, rng, 3):
             rec('implies_type_hints', name, vrs,
                 call(aut.implies_type_hints, u, vrs))
+    # joint_support over all predicates of the instance, and over two of them
+    names = list(inst.preds)
+    for grp in ([names, names[:2], names[-1:]] if names else []):
+        rec('joint_support', None, list(grp),
+            call(prm.joint_support,
+                 [inst.bdd(inst.preds[n]) for n in grp], aut))
     # type-hint formulas (independent of a predicate)
     allv = flex + rigid + [v + "'" for v in flex]
     for vrs in subsets(allv, rng, 6):
@@ -520,6 +546,10 @@ def prime_term(p, o):
         return st(f'{op} {T} {u}')
     if op == 'support':
         return st(f'ctx_support {T} {u}')
+    if op == 'joint_support':
+        # no hand-written model: the GENERATED function is evaluated
+        nodes = '; '.join(f'{p}u_{n}' for n in args)
+        return st(f'PrimeGen.joint_support {T} [{nodes}]')
     if op == 'split_support':
         if res[0] == 'err':
             return (f'match split_support {T} {u} with None => true '
@@ -637,6 +667,25 @@ def prime_oracle(inst):
                                   if v.rstrip("'") + "'" in aut.vars}))
         elif op == 'is_state_predicate':
             exp = ('bool', not any(v.endswith("'") for v in semsupport(tab)))
+        elif op == 'is_proper_action':
+            sup = semsupport(tab)
+            exp = ('bool', any(v.endswith("'") for v in sup)
+                   and any(not v.endswith("'") for v in sup))
+        elif op == 'is_primed_state_predicate':
+            exp = ('bool', not any(not v.endswith("'") and v + "'" in aut.vars
+                                   for v in semsupport(tab)))
+        elif op == 'split_support':
+            sup = semsupport(tab)
+            exp = ('pair', [[v for v in sup if not v.endswith("'")],
+                            [v for v in sup if v.endswith("'")]])
+        elif op == 'support_issubset':
+            exp = ('bool', set(semsupport(tab)) <= set(args))
+        elif op == 'is_action_of_player':
+            exp = ('bool', {v for v in semsupport(tab) if v.endswith("'")}
+                   <= {a + "'" for a in args})
+        elif op == 'joint_support':
+            exp = ('set', sorted(set().union(
+                *[semsupport(tables[n]) for n in args])))
         elif op == 'prime':
             sup = semsupport(tab)
             if any(v.endswith("'") for v in sup):
@@ -791,6 +840,7 @@ def correspond(ctx):
         'parsed formula; prime, unprime, unprime(prime), replace_with_primed/'
         'unprimed on subsets (incl. constants -> rejected), rename_variables '
         '(single, swap, chain, to constant), all support classifiers, type '
+        'joint_support (against the GENERATED function), type '
         'hint/action formulas, _conjoin_type_hints, type_invariants, '
         'implies_type_hints; results compared as truth tables over ALL bit '
         'assignments / as sets with the model evaluated by vm_compute; '
